@@ -67,6 +67,8 @@ type FuncContract struct {
 	Cuts     map[int]*CutSpec
 	NamedCuts []*CutSpec
 	Secret   []SpecExpr
+	CT       *CTSpec // secrecy clause (ct.go)
+	CTOnly   bool    // the block carries only a ct clause: no functional verification of the body
 	Public   []SpecExpr
 	Ghost    []string
 	Line     string
@@ -393,6 +395,14 @@ func ParseContracts(file, pkg string, configOK func(pred string) bool) (*PkgCont
 			cur.HavocGlobals = append(cur.HavocGlobals, fieldsComma(rest)...)
 		case kw == "assumed":
 			cur.Assumed = true
+		case kw == "ct":
+			c, err := parseCTClause(rest)
+			if err != nil {
+				return nil, fmt.Errorf("%s: %v", line, err)
+			}
+			cur.CT = c
+		case kw == "ct-only":
+			cur.CTOnly = true
 		case kw == "ghost":
 			cur.Ghost = append(cur.Ghost, fieldsComma(rest)...)
 		case kw == "uses":
